@@ -145,3 +145,68 @@ func TestReplayC14Locations(t *testing.T) {
 		{"amf://id#3", "[(11,0)-(12,8)]", "file:///libs/single.raml"}, {"amf://id#4", "[(14,0)-(15,8)]", ""}})
 	c14Check(t, "no source information, after units that had it", root, false, []c14Node{{"amf://id#1", "[(3,0)-(5,12)]", ""}})
 }
+
+// Custom rego may name the node a trace entry is about ($traceNode): the entry is then located at THAT node's recorded range and
+// file, whatever way the code spells the assignment, the result itself stays at the focus node, and a constraint that follows
+// in the same validation is traced at its own node again.
+func TestReplayC14TraceNodeOfCustomRego(t *testing.T) {
+	root := "file:///api/root.raml"
+	nodes := []c14Node{{"amf://id#1", "[(3,0)-(5,12)]", ""}, {"amf://id#2", "[(7,2)-(9,4)]", "file:///libs/single.raml"}}
+	doc := strings.Replace(c14Doc(root, true, nodes), `{"@id": "amf://id#1", "@type":`, `{"@id": "amf://id#1", "http://a.ml/vocabularies/apiContract#next": {"@id": "amf://id#2"}, "@type":`, 1)
+	if !strings.Contains(doc, "apiContract#next") {
+		t.Errorf("C14 harness: the link between the two nodes could not be added")
+		return
+	}
+	collect := `nexts = collect with data.nodes as [$node] with data.property as "http://a.ml/vocabularies/apiContract#next"` + "\n      n = nexts[_]\n      "
+	for _, spelling := range []string{"$traceNode = n", "$traceNode := n", "$traceNode=n", "n = $traceNode"} {
+		for _, shape := range []string{"alone", "followed by a constraint in an or"} {
+			body := "    rego: |\n      " + collect + spelling + "\n      $result = false\n"
+			if shape != "alone" {
+				body = "    or:\n      - rego: |\n          " + strings.ReplaceAll(collect, "\n      ", "\n          ") + spelling + "\n          $result = false\n      - propertyConstraints:\n          core.name:\n            minCount: 1\n"
+			}
+			p := "#%Validation Profile 1.0\nprofile: Loc\nviolation:\n  - linked\nvalidations:\n  linked:\n    message: m\n    targetClass: apiContract.EndPoint\n" + body
+			scenario := "custom rego with `" + spelling + "`, " + shape
+			rep, err := Validate(p, doc, false, nil)
+			if err != nil {
+				t.Errorf("C14 violated: %s: validation failed: %v", scenario, strings.Split(err.Error(), "\n")[0])
+				continue
+			}
+			var parsed []map[string]any
+			if json.Unmarshal([]byte(rep), &parsed) != nil || len(parsed) == 0 {
+				t.Errorf("C14 violated: %s: unreadable report", scenario)
+				continue
+			}
+			r := parsed[0]["doc:encodes"].([]any)[0].(map[string]any)
+			res, _ := r["result"].([]any)
+			seen := false
+			for _, x := range res {
+				m, _ := x.(map[string]any)
+				if fmt.Sprint(m["focusNode"]) != "amf://id#1" {
+					continue
+				}
+				seen = true
+				if got, want := c14Loc(m["location"]), root+" [(3,0)-(5,12)]"; got != want {
+					t.Errorf("C14 violated: %s: the result about amf://id#1 is located at %q, the source maps say %q", scenario, got, want)
+				}
+				tr, _ := m["trace"].([]any)
+				for _, y := range tr {
+					tm, _ := y.(map[string]any)
+					got := c14Loc(tm["location"])
+					switch fmt.Sprint(tm["component"]) {
+					case "rego":
+						if want := "file:///libs/single.raml [(7,2)-(9,4)]"; got != want {
+							t.Errorf("C14 violated: %s: the trace entry of the custom rego names amf://id#2 as its node but is located at %q, the source maps say %q", scenario, got, want)
+						}
+					case "minCount":
+						if want := root + " [(3,0)-(5,12)]"; got != want {
+							t.Errorf("C14 violated: %s: the trace entry of minCount is about amf://id#1 but is located at %q, the source maps say %q", scenario, got, want)
+						}
+					}
+				}
+			}
+			if !seen {
+				t.Errorf("C14 violated: %s: no result about amf://id#1", scenario)
+			}
+		}
+	}
+}
